@@ -92,6 +92,67 @@ Proof.
       * intros Hs. rewrite chain_feed_app, E1 in Hs. discriminate.
 Qed.
 
+(* a record whose evaluation fails: the rows of its earlier matches are written, then the failure is raised *)
+Lemma process_matches_error nr a : forall ms ls part e,
+  l_nu ls = 0 ->
+  offers_until_error expr eval q nr a ms = (part, Some e) ->
+  snd (chain_feed w cfg (l_chain ls) part) = true ->
+  process_matches eval w q ls nr a ms = (fed ls part, Fail e).
+Proof.
+  induction ms as [|b ms IH]; intros ls part e Hnu H Hs; [discriminate|].
+  cbn [offers_until_error] in H. cbn [process_matches]. unfold process_select. rewrite Hagg, Hnu. unfold env_of in H.
+  destruct (select_rows eval q _) as [r|e1] eqn:E1.
+  - destruct (offers_until_error expr eval q nr a ms) as [rs e2] eqn:E2. injection H as <- ->.
+    unfold write_rows. fold cfg. rewrite chain_feed_app in Hs.
+    destruct (chain_feed w cfg (l_chain ls) r) as [st1 ok1] eqn:F1. cbn [fst snd] in Hs. destruct ok1; [|discriminate].
+    rewrite (IH {| l_chain := st1; l_agg := l_agg ls; l_nu := 0 |} rs e eq_refl eq_refl Hs).
+    unfold fed. cbn [l_chain l_agg l_nu]. rewrite chain_feed_app, F1. cbn [fst snd]. rewrite Hnu. reflexivity.
+  - injection H as <- <-. unfold fed. cbn. destruct ls; cbn in *; subst; reflexivity.
+Qed.
+
+Lemma process_record_error jm ls nr a part e :
+  l_nu ls = 0 ->
+  record_until_error expr eval q jm nr a = (part, Some e) ->
+  snd (chain_feed w cfg (l_chain ls) part) = true ->
+  process_record eval w q jm ls nr a = (fed ls part, Fail e).
+Proof.
+  intros Hnu H Hs. unfold record_until_error, matches_of in H. unfold process_record. unfold is_update in Hupd.
+  assert (Hfed : fed ls [] = ls) by (unfold fed; cbn; destruct ls; reflexivity).
+  destruct (q_kind q) eqn:Ek; try discriminate.
+  - destruct (q_join q) as [js|]; [destruct jm as [m|]|].
+    + destruct (bind _ _) as [ms|e1]; [apply process_matches_error; assumption|]. injection H as <- <-. rewrite Hfed. reflexivity.
+    + apply process_matches_error; assumption.
+    + apply process_matches_error; assumption.
+  - destruct (q_join q) as [js|]; [destruct jm as [m|]|].
+    + destruct (bind _ _) as [ms|e1]; [apply process_matches_error; assumption|]. injection H as <- <-. rewrite Hfed. reflexivity.
+    + apply process_matches_error; assumption.
+    + apply process_matches_error; assumption.
+Qed.
+
+Lemma main_loop_first_offender jm : forall A1 ls nr offs1 a A2 part e,
+  l_nu ls = 0 ->
+  all_offers expr eval q jm nr A1 = Ok offs1 ->
+  record_until_error expr eval q jm (S (nr + length A1)) a = (part, Some e) ->
+  snd (chain_feed w cfg (l_chain ls) (offs1 ++ part)) = true ->
+  main_loop eval w q jm ls nr (A1 ++ a :: A2) =
+    (fed ls (offs1 ++ part), S (nr + length A1), Some (classify (S (nr + length A1)) e)).
+Proof.
+  induction A1 as [|a1 A1 IH]; intros ls nr offs1 a A2 part e Hnu H He Hs.
+  - cbn in H. injection H as <-. cbn [app length] in *. rewrite Nat.add_0_r in *. cbn [main_loop].
+    rewrite (process_record_error jm ls (S nr) a part e Hnu He Hs). reflexivity.
+  - cbn [all_offers] in H. apply bind_ok in H. destruct H as [ms [Hm H]].
+    apply bind_ok in H. destruct H as [r [Hr H]]. apply bind_ok in H. destruct H as [rs [Hrs H]]. injection H as <-.
+    cbn [app main_loop]. rewrite (process_record_select jm ls (S nr) a1 ms r Hnu Hm Hr).
+    rewrite <- app_assoc in Hs. rewrite chain_feed_app in Hs.
+    destruct (chain_feed w cfg (l_chain ls) r) as [st1 ok1] eqn:E1. cbn [fst snd] in Hs. destruct ok1; [|discriminate]. cbn [snd flow_of].
+    cbn [length] in *. replace (S (nr + S (length A1))) with (S (S nr + length A1)) in * by lia.
+    rewrite (IH (fed ls r) (S nr) rs a A2 part e Hnu Hrs He).
+    + assert (Hf : fed (fed ls r) (rs ++ part) = fed ls ((r ++ rs) ++ part)).
+      { unfold fed. cbn [l_chain l_agg l_nu]. rewrite <- app_assoc, (chain_feed_app w cfg r), E1. reflexivity. }
+      rewrite Hf. reflexivity.
+    + unfold fed. cbn [l_chain]. rewrite E1. exact Hs.
+Qed.
+
 (* once the chain has refused a row, the rest of the input is never pulled *)
 Lemma main_loop_app_stop jm : forall A1 ls nr offs1,
   l_nu ls = 0 ->
@@ -133,6 +194,30 @@ Proof.
   - injection Hjm as <-.
     destruct (main_loop_select w q Hagg Hupd None A ls0 0 offs Hnu Hoff) as [nr' [L1 [L2 L3]]].
     rewrite L1. cbn [finish fed l_agg l_chain ls0 o_error o_chain o_pulls]. cbn in L2, L3. repeat split; auto.
+Qed.
+
+(* the first record whose evaluation fails stops the query: it is reported with that record's number, the rows
+   emitted before the failing evaluation have been written, finish() is not called *)
+Theorem run_select_first_offender w (q : query) hdr A1 a A2 B jm offs1 part e :
+  is_agg q = false -> is_update q = false -> static_check q = None ->
+  join_map_of expr q B = Some jm ->
+  all_offers expr eval q jm 0 A1 = Ok offs1 ->
+  record_until_error expr eval q jm (S (length A1)) a = (part, Some e) ->
+  snd (chain_feed w (cfg_of q) (set_header chain_init hdr) (offs1 ++ part)) = true ->
+  let o := run eval w q hdr (A1 ++ a :: A2) B in
+  o_error o = Some (classify (S (length A1)) e)
+  /\ o_chain o = fst (chain_feed w (cfg_of q) (set_header chain_init hdr) (offs1 ++ part))
+  /\ o_pulls o = S (length A1).
+Proof.
+  intros Hagg Hupd Hst Hjm Hoff He Hs. unfold run. rewrite Hst. unfold join_map_of in Hjm.
+  set (ls0 := {| l_chain := set_header chain_init hdr; l_agg := None; l_nu := 0 |}).
+  destruct (q_join q) as [js|] eqn:Ej.
+  - destruct (build (j_rhs js) B) as [m|bnr] eqn:Eb; [|discriminate]. injection Hjm as <-.
+    rewrite (main_loop_first_offender w q Hagg Hupd (Some m) A1 ls0 0 offs1 a A2 part e eq_refl Hoff He Hs).
+    cbn. repeat split.
+  - injection Hjm as <-.
+    rewrite (main_loop_first_offender w q Hagg Hupd None A1 ls0 0 offs1 a A2 part e eq_refl Hoff He Hs).
+    cbn. repeat split.
 Qed.
 
 (* with a writer that never refuses, the output is the chain specification applied to the offers *)
